@@ -355,7 +355,7 @@ pub fn run_all(s: &str, f: &str) -> Result<(u32, [bool; 6]), String> {
     Ok((oks, [e0.is_ok(), e1.is_ok(), e2.is_ok(), e3_ok, e4_ok, fm.is_ok()]))
 }
 
-fn oracle(c: &Case) -> Verdict {
+pub fn oracle(c: &Case) -> Verdict {
     let (oks, ep) = match run_all(&c.s, &c.f) {
         Ok(v) => v,
         Err(m) => return Verdict::Fail(m),
@@ -376,5 +376,6 @@ pub fn subs() -> Vec<Box<dyn DynSub>> {
     vec![
         sub(Sub { name: "c13.strings", source: Source::Gen(case_strategy, 600_000, 30_000_000), oracle, known, hang_is_violation: true }),
         sub(Sub { name: "c13.out_of_range", source: Source::Gen(reject_only_strategy, 100_000, 3_000_000), oracle, known, hang_is_violation: true }),
+        crate::props::fuzzsub::c13_fuzz(),
     ]
 }
